@@ -5,6 +5,8 @@
 //!                                                   oracle failures go to <file> as `lineno\tproperty\tmessage`
 //!   vharness tabulate types|fullwidth            -> translator input (exhaustive tabulation)
 mod bin;
+mod cli;
+mod dict;
 mod filt;
 mod gen_bin;
 mod gen_pred;
@@ -36,6 +38,7 @@ fn main() {
             match family.as_str() {
                 "C01" => gen_pred::gen_c01(&mut out, thorough, seed),
                 "C09" | "C10" | "C11" | "C12" => gen_train::gen(&mut out, family, thorough, seed),
+                "C19" => dict::gen(&mut out, thorough, seed),
                 "C17" => kytea::gen(&mut out, thorough, seed),
                 "C14" => gen_pred::gen_c14(&mut out, thorough, seed),
                 "C13" => gen_pred::gen_c13(&mut out, thorough, seed),
@@ -83,6 +86,11 @@ fn main() {
             }
             out.flush().unwrap();
         }
+        Some("c19cli") => {
+            let thorough = args.get(2).map(String::as_str) == Some("thorough");
+            let seed: u64 = args.get(3).and_then(|s| s.parse().ok()).unwrap_or(1);
+            dict::cli_roundtrip(thorough, seed);
+        }
         Some("threads") => {
             util::silence_panics();
             let thorough = args.get(2).map(String::as_str) == Some("thorough");
@@ -109,6 +117,7 @@ fn run_case(line: &str, fails: &mut Vec<(String, String)>, effective: &mut Optio
         ["E", ..] => pred::run_e(&toks, fails),
         ["TR", ..] => train::run(&toks, fails, effective),
         [k, ..] if matches!(*k, "KY" | "KYE" | "KYX") => kytea::run(&toks, fails),
+        [k, ..] if matches!(*k, "RD" | "WJ" | "WP") => dict::run(&toks, fails),
         _ => "bad-case".into(),
     }
 }
